@@ -6,8 +6,10 @@ predicate (real code): each relation evaluated on points / pairs of points; only
 larger than the rounding bound of the evaluations involved are reported.  The same relations are
 evaluated on (a) positional calls of the functionals in their documented parameter order,
 (b) BATCHED evaluations (mixed regimes in one tensor, several layouts / broadcasting) which must
-also reproduce the one-element evaluations bit for bit, and (c) prices that a Black-Scholes module
-takes from a simulated derivative (non-dyadic strikes, underlier started exactly on the strike).
+also reproduce the one-element evaluations bit for bit (a module that has quoted a batch is asked again),
+and (c) prices that a Black-Scholes module takes from a simulated derivative (non-dyadic strikes, underlier
+started exactly on the strike), several derivatives sharing ONE underlier which is simulated again / cast /
+deep-copied between the quotes (the relations always refer to the paths the underlier carries now).
 """
 import math
 from common import *  # noqa
@@ -108,16 +110,22 @@ def batched_block(ctx, torch, g, n_batches):
         ctx.stats["batched mixed-regimes" if mixed else "batched one-regime"] += 1
         ctx.traces += 1
         out = {}
+        i0 = g.randint(0, len(elems) - 1)
         for fn, call in FNS:
+            mod = None
             if via == "module":
                 if fn == "european_price":
-                    val = BSEuropeanOption(call=call, strike=k).price(S_, T_, V_)
+                    mod = BSEuropeanOption(call=call, strike=k)
+                    val = mod.price(S_, T_, V_)
                 elif fn == "european_binary_price":
-                    val = BSEuropeanBinaryOption(call=call, strike=k).price(S_, T_, V_)
+                    mod = BSEuropeanBinaryOption(call=call, strike=k)
+                    val = mod.price(S_, T_, V_)
                 elif fn == "american_binary_price":
-                    val = BSAmericanBinaryOption(strike=k).price(S_, M_, T_, V_)
+                    mod = BSAmericanBinaryOption(strike=k)
+                    val = mod.price(S_, M_, T_, V_)
                 else:
-                    val = BSLookbackOption(strike=k).price(S_, M_, T_, V_)
+                    mod = BSLookbackOption(strike=k)
+                    val = mod.price(S_, M_, T_, V_)
             else:
                 val = call_bs(torch, fn, S_, T_, V_, k, M_, call)
             if tuple(val.shape) != tuple(shape):
@@ -134,6 +142,15 @@ def batched_block(ctx, torch, g, n_batches):
                              case | {"fn": fn, "call": call, "index": i, "point": {"s": s, "m": m, "t": t, "v": v}},
                              key=f"batched:{fn}:differs-from-single", detail={"batched": vals[i], "single": one})
                     break
+            if mod is not None:
+                # the SAME module object asked again, for one scenario of the batch
+                s, m, t, v = elems[i0]
+                again = mod.price(mk([s]), mk([m]), mk([t]), mk([v])) if "m" in FN_ARGS[fn] else mod.price(mk([s]), mk([t]), mk([v]))
+                one = float(call_bs(torch, fn, [s], [t], [v], k, [m], call))
+                if tuple(again.shape) != (1,) or not same_bits(float(again), one):
+                    ctx.fail("a pricing module that has quoted a batch gives another price for one of its scenarios when it is asked again",
+                             case | {"fn": fn, "call": call, "index": i0, "point": {"s": s, "m": m, "t": t, "v": v}},
+                             key=f"batched:{fn}:module-asked-again", detail={"again": [float(x) for x in again.reshape(-1)], "single": one})
         if out is None:
             continue
         for i, (s, m, t, v) in enumerate(elems):
@@ -145,26 +162,35 @@ def batched_block(ctx, torch, g, n_batches):
                             out[("american_binary_price", True)][i], out[("lookback_price", True)][i])
 
 
-def derivative_block(ctx, torch, g, n_scen):
+ROUTES = ("stock", "other", "own:c", "own:p", "own:bc", "own:bp", "own:ab", "own:lb")
+
+
+def derivative_block(ctx, torch, g, n_scen, items, metas):
     """prices that BlackScholes(derivative) takes from a simulated derivative (log-moneyness, running
     maximum, time to maturity and volatility all come from the instrument): non-dyadic strikes, the
     underlier started exactly on the strike (so the barrier is reached at step 0 whatever happens later),
     just below / above it, float32 and float64 markets.
     reached := running maximum of the simulated spot >= strike, the strike taken as the market's dtype
     represents it (init_state=(K,) puts the spot exactly there; the derivative's own payoff compares the
-    same way).  For such a path the unchanged code is exact: S >= K gives fl(S/K) >= 1 and log >= 0."""
+    same way).  For such a path the unchanged code is exact: S >= K gives fl(S/K) >= 1 and log >= 0.
+
+    The six derivatives are written on ONE underlier and the objects are used again after they have been
+    quoted: the underlier is simulated again (through its own simulate(), through the simulate() of any of
+    the six, or of a seventh derivative written on it that is never quoted; other number of paths / start),
+    the market is cast to the other precision (through the underlier or through one of the derivatives), the
+    whole set is copied with copy.deepcopy before the originals move on.  After every such event every
+    quote has to satisfy the relations with respect to the paths that the underlier carries NOW (spot and
+    running maximum recomputed here from stock.spot); a deep copy keeps satisfying them on its own paths.
+    Points of the float64 quotes are also sent to the model (op bs) with log-moneyness / running maximum /
+    time to maturity recomputed here from the current spot."""
+    import copy
     from pfhedge.instruments import BrownianStock, EuropeanOption, EuropeanBinaryOption, AmericanBinaryOption, LookbackOption
     from pfhedge.nn import BlackScholes
-    for _ in range(n_scen):
-        dtype = g.choice([torch.float32, torch.float64])
-        K = g.choice([0.9, 0.95, 1.01, 1.03, 1.05, 1.3, 0.7, 1.1, 1.2, 3.0, 110.0, 1.0, 2.0,
-                      round(g.r.uniform(0.5, 2.0), 2), round(g.r.uniform(0.5, 2.0), 3), g.r.uniform(0.3, 3.0)])
-        sigma = g.choice([0.2, 0.1, 0.4, round(g.r.uniform(0.05, 0.8), 2)])
-        dt = g.choice([1 / 250, 1 / 365, 0.01])
-        n_steps = g.randint(2, 8)
-        maturity = n_steps * dt
-        start = g.weighted([("at-strike", 6), ("below", 2), ("above", 1), ("one-ulp-above", 1)])
-        Kd = float(torch.tensor(K, dtype=dtype))     # the strike as the market's dtype holds it
+    NAMES = ("c", "p", "bc", "bp", "ab", "lb")
+    STARTS = [("at-strike", 6), ("below", 2), ("above", 1), ("one-ulp-above", 1)]
+
+    def gen_start(K, dtype):
+        start = g.weighted(STARTS)
         if start == "at-strike":
             init = K
         elif start == "below":
@@ -173,10 +199,36 @@ def derivative_block(ctx, torch, g, n_scen):
             init = K * g.choice([1.001, 1.05])
         else:
             init = float(torch.nextafter(torch.tensor(K, dtype=dtype), torch.tensor(math.inf, dtype=dtype)))
+        return start, init
+
+    for _ in range(n_scen):
+        dtype = g.choice([torch.float32, torch.float64])
+        K = g.choice([0.9, 0.95, 1.01, 1.03, 1.05, 1.3, 0.7, 1.1, 1.2, 3.0, 110.0, 1.0, 2.0,
+                      round(g.r.uniform(0.5, 2.0), 2), round(g.r.uniform(0.5, 2.0), 3), g.r.uniform(0.3, 3.0)])
+        sigma = g.choice([0.2, 0.1, 0.4, round(g.r.uniform(0.05, 0.8), 2)])
+        dt = g.choice([1 / 250, 1 / 365, 0.01])
+        n_steps = g.randint(2, 8)
+        maturity = n_steps * dt
+        start, init = gen_start(K, dtype)
         n_paths = g.randint(1, 6)
         tseed = g.randint(0, 10 ** 6)
+        # half of the time through a derivative's own simulate(), otherwise through the shared underlier
+        route = ("own:" + g.choice(["ab", "lb", "c"])) if g.chance(0.5) else "stock"
+        # what happens to the same objects after the first quotes
+        later, cur = [], dtype
+        for _e in range(g.weighted([(0, 3), (1, 4), (2, 3)])):
+            ev = g.weighted([("simulate", 6), ("cast", 2), ("copy", 2)])
+            if ev == "cast":
+                cur = torch.float64 if cur == torch.float32 else torch.float32
+                later.append({"event": "cast", "dtype": str(cur), "through": g.choice(("stock",) + NAMES)})
+                continue
+            st2, in2 = gen_start(K, cur)
+            later.append({"event": ev, "route": g.choice(ROUTES), "start": st2, "init_state": in2,
+                          "n_paths": g.choice([n_paths, g.randint(1, 6)]), "torch_seed": g.randint(0, 10 ** 6)})
+        keep_modules, bsm = g.chance(0.5), {}
         case = {"kind": "derivative", "dtype": str(dtype), "strike": K, "sigma": sigma, "dt": dt, "n_steps": n_steps,
-                "start": start, "init_state": init, "n_paths": n_paths, "torch_seed": tseed}
+                "start": start, "init_state": init, "n_paths": n_paths, "torch_seed": tseed, "route": route, "later": later,
+                "pricing_modules": "kept" if keep_modules else "rebuilt for every quote"}
         ctx.case(case, True, tag="derivative")
         ctx.stats[f"derivative start={start}"] += 1
         ctx.stats[f"derivative dtype={str(dtype).split('.')[-1]}"] += 1
@@ -186,43 +238,92 @@ def derivative_block(ctx, torch, g, n_scen):
             "c": EuropeanOption(stock, call=True, strike=K, maturity=maturity), "p": EuropeanOption(stock, call=False, strike=K, maturity=maturity),
             "bc": EuropeanBinaryOption(stock, call=True, strike=K, maturity=maturity), "bp": EuropeanBinaryOption(stock, call=False, strike=K, maturity=maturity),
             "ab": AmericanBinaryOption(stock, strike=K, maturity=maturity), "lb": LookbackOption(stock, strike=K, maturity=maturity),
+            "other": EuropeanOption(stock, strike=1.0, maturity=maturity),      # written on the same underlier, never quoted
         }
-        torch.manual_seed(tseed)
-        # half of the time through a derivative's own simulate(), otherwise through the shared underlier
-        if g.chance(0.5):
-            ders[g.choice(["ab", "lb", "c"])].simulate(n_paths=n_paths, init_state=(init,))
-        else:
-            stock.simulate(n_paths=n_paths, time_horizon=maturity, init_state=(init,))
-        spot = stock.spot.to(torch.float64)
-        if start == "at-strike" and not bool((spot[:, 0] == Kd).all()):
-            raise InternalError(f"scenario construction: spot does not start on the strike {Kd}: {spot[:, 0].tolist()}")
-        rmax = spot.cummax(dim=-1).values
-        ttm = ders["ab"].time_to_maturity().to(torch.float64)
-        pr = {}
-        for nm, d in ders.items():
-            st, val, _ = call_impl(BlackScholes(d).price)
-            if st != "ok" or tuple(val.shape) != tuple(spot.shape):
-                ctx.fail("BlackScholes(derivative).price() raised / has not the shape of the simulated spot", case | {"derivative": nm},
-                         key="derivative:price-call", detail=str(val)[:300] if st != "ok" else list(val.shape))
-                pr = None
-                break
-            pr[nm] = val.to(torch.float64)
-        if pr is None:
-            continue
-        f32 = dtype == torch.float32
-        # float32 prices: tolerances in units of the float32 rounding error (2^-24 instead of 2^-53 would be
-        # 5e8 times the float64 bounds; 2e-5 relative to the scale, ~170 float32 ulps, is what is demanded here)
-        tol = dict(eps=2e-5, par=2e-5, binpar=2e-6) if f32 else {}
-        for i in range(spot.shape[0]):
-            for j in range(spot.shape[1]):
-                if not float(ttm[i, j]) > 0:       # the property speaks about time to maturity > 0
-                    continue
-                S, M = float(spot[i, j]), float(rmax[i, j])
 
-                def bad(what, key, **d):
-                    ctx.fail(what + " (price taken from the simulated derivative)",
-                             case | {"path": i, "step": j, "spot_path": [float(x) for x in spot[i, :j + 1]], "strike_in_dtype": Kd}, key=key, detail=d)
-                point_relations(bad, "derivative:", S, K, M, M >= Kd, *(float(pr[nm][i, j]) for nm in ("c", "p", "bc", "bp", "ab", "lb")), **tol)
+        def simulate(route, n_paths, init, tseed):
+            torch.manual_seed(tseed)
+            if route == "stock":
+                stock.simulate(n_paths=n_paths, time_horizon=maturity, init_state=(init,))
+            else:
+                ders[route.split(":")[-1]].simulate(n_paths=n_paths, init_state=(init,))
+
+        def quote(ders, pre, stage, dtype, started_on=None, who="originals"):
+            """quote the six derivatives and check the point relations against the spot their underlier carries now;
+            False when a price call failed"""
+            stock = ders["ab"].underlier
+            Kd = float(torch.tensor(K, dtype=dtype))     # the strike as the market's dtype holds it
+            spot = stock.spot.to(torch.float64)
+            if stock.spot.dtype != dtype:
+                raise InternalError(f"scenario construction: market dtype {stock.spot.dtype}, expected {dtype}")
+            if started_on is not None and not bool((spot[:, 0] == started_on).all()):
+                raise InternalError(f"scenario construction: spot does not start on the strike {started_on}: {spot[:, 0].tolist()}")
+            rmax = spot.cummax(dim=-1).values
+            ttm = ders["ab"].time_to_maturity().to(torch.float64)
+            scase = case | {"stage": stage}
+            ctx.stats[f"derivative quotes {pre[:-1]}"] += 1
+            pr = {}
+            for nm in NAMES:
+                # the pricing module of a derivative is kept and asked again after the events (half of the scenarios)
+                mod = bsm.get((who, nm)) if keep_modules else None
+                if mod is None:
+                    mod = bsm[(who, nm)] = BlackScholes(ders[nm])
+                st, val, _ = call_impl(mod.price)
+                if st != "ok" or tuple(val.shape) != tuple(spot.shape):
+                    ctx.fail("BlackScholes(derivative).price() raised / has not the shape of the simulated spot", scase | {"derivative": nm},
+                             key=pre + "price-call", detail=str(val)[:300] if st != "ok" else list(val.shape))
+                    return False
+                pr[nm] = val.to(torch.float64)
+            f32 = dtype == torch.float32
+            # float32 prices: tolerances in units of the float32 rounding error (2^-24 instead of 2^-53 would be
+            # 5e8 times the float64 bounds; 2e-5 relative to the scale, ~170 float32 ulps, is what is demanded here)
+            tol = dict(eps=2e-5, par=2e-5, binpar=2e-6) if f32 else {}
+            live = []
+            for i in range(spot.shape[0]):
+                for j in range(spot.shape[1]):
+                    if not float(ttm[i, j]) > 0:       # the property speaks about time to maturity > 0
+                        continue
+                    live.append((i, j))
+                    S, M = float(spot[i, j]), float(rmax[i, j])
+
+                    def bad(what, key, **d):
+                        ctx.fail(what + " (price taken from the simulated derivative" + ("" if pre == "derivative:" else "; " + stage) + ")",
+                                 scase | {"path": i, "step": j, "spot_path": [float(x) for x in spot[i, :j + 1]], "strike_in_dtype": Kd}, key=key, detail=d)
+                    point_relations(bad, pre, S, K, M, M >= Kd, *(float(pr[nm][i, j]) for nm in NAMES), **tol)
+            if not f32 and live:
+                # correspondence on the same quotes: the model at the arguments the derivative has to hand to the formula
+                # (log(S/K), log(running max/K) formed as the instrument documents them, from the current spot)
+                ls, lm = (spot / K).log(), (rmax / K).log()
+                for i, j in [g.choice(live) for _p in range(2)]:
+                    e = [float(ls[i, j]), float(ttm[i, j]), sigma, K, float(lm[i, j])]
+                    for nm, fn, call in (("c", "european_price", True), ("p", "european_price", False), ("bc", "european_binary_price", True),
+                                         ("ab", "american_binary_price", True), ("lb", "lookback_price", True)):
+                        items.append((fn, call, e))
+                        metas.append((scase | {"path": i, "step": j, "fn": fn, "call": call, "args": e}, float(pr[nm][i, j])))
+            return True
+
+        simulate(route, n_paths, init, tseed)
+        ok = quote(ders, "derivative:", "first simulation", dtype, float(torch.tensor(K, dtype=dtype)) if start == "at-strike" else None)
+        cur = dtype
+        for n_ev, ev in enumerate(later):
+            if not ok:
+                break
+            stage = f"after event {n_ev + 1} ({ev['event']})"
+            ctx.stats[f"derivative event={ev['event']}"] += 1
+            if ev["event"] == "cast":
+                cur = torch.float64 if cur == torch.float32 else torch.float32
+                (stock if ev["through"] == "stock" else ders[ev["through"]]).to(cur)
+                ok = quote(ders, "recast:", stage + f": market cast to {cur} through {ev['through']}", cur)
+                continue
+            twin = None
+            if ev["event"] == "copy":       # the derivatives together with their kept pricing modules (one deepcopy: sharing is preserved)
+                twin, mods = copy.deepcopy((ders, {k[1]: m for k, m in bsm.items() if k[0] == "originals"}))
+                bsm.update({(f"copy {n_ev}", nm): m for nm, m in mods.items()})
+            simulate(ev["route"], ev["n_paths"], ev["init_state"], ev["torch_seed"])
+            ok = quote(ders, "resimulated:", stage + f": underlier simulated again through {ev['route']}", cur,
+                       float(torch.tensor(K, dtype=cur)) if ev["start"] == "at-strike" else None)
+            if ok and twin is not None:
+                ok = quote(twin, "copied:", stage + ": deep copy taken before the originals were simulated again", cur, who=f"copy {n_ev}")
 
 
 def check(ctx):
@@ -309,7 +410,7 @@ def check(ctx):
             if abs(lo - hi) > 1e-9 * sc:
                 bad("lookback price jumps where the running maximum crosses the strike", "relation:lookback-continuity", below=lo, at=hi)
     batched_block(ctx, torch, g, 120 if ctx.tier == "quick" else 1000)
-    derivative_block(ctx, torch, g, 80 if ctx.tier == "quick" else 600)
+    derivative_block(ctx, torch, g, 80 if ctx.tier == "quick" else 600, items, metas)
     try:
         mv = model_vals(ctx, items)
     except DriverBroken as e:
@@ -322,4 +423,6 @@ def check(ctx):
         rule="prices quoted by the functional forms (keywords; 15 % with every argument positional in the documented order) and (30 %) by the pricing modules built with the strike / call flag; points of the open domain with running max >= spot (incl. equality and max exactly at the strike) and pairs at relative distances "
              "{0.3, 0.05, 1e-3} for the monotonicity / convexity relations; batched calls (2-16 scenarios with the running max below / at / above the strike mixed in one tensor; flat, matrix, broadcast grid, strided and expanded layouts; "
              "functional or module) compared bit for bit with the one-element calls and checked against the point relations (non-trivial = regimes mixed); Black-Scholes modules reading simulated derivatives (BrownianStock float32/float64, "
-             "decimal / random strikes, started exactly on / below / above the strike, 1-6 paths, 2-8 steps) checked against the point relations at every step with time to maturity > 0; distinct = sha1 of canonical case")
+             "decimal / random strikes, started exactly on / below / above the strike, 1-6 paths, 2-8 steps) checked against the point relations at every step with time to maturity > 0; "
+             "six derivatives on ONE underlier, quoted again after 0-2 later events (underlier simulated again directly / through any of the six / through a seventh derivative, market cast to the other precision, deep copy taken "
+             "before the originals move on; pricing modules kept or rebuilt), spot and running maximum recomputed from the current stock.spot; two points of every float64 quote also sent to the model; distinct = sha1 of canonical case")
